@@ -39,6 +39,11 @@ type MergePlan struct {
 	MvexFirst bool     // mvex in front of the trak boxes (as CreateEmptyInit writes it) or behind them
 	Shape     string   // alternating | multi-traf | mixed
 	Slots     []Slot
+	// TrexDefaults[i]: move the tfhd defaults (sample duration, size, flags) of
+	// track i into its trex where every fragment of the track carries the same
+	// value, so that reading the samples depends on the right trex box.
+	TrexDefaults []bool
+	Moved        []string // set by Merge: "<duration|size|flags>" per moved default
 }
 
 // rank returns, for an order of source tracks, the ranks of their track ids
@@ -101,7 +106,7 @@ func (p *MergePlan) String() string {
 		}
 		sl = append(sl, fmt.Sprintf("(%s data%v)", strings.Join(t, " "), s.DataOrder))
 	}
-	return fmt.Sprintf("ids%v trak%v trex%v mvexFirst=%v %s %s", p.TrackIDs, p.TrakOrder, p.TrexOrder, p.MvexFirst, p.Shape, strings.Join(sl, ""))
+	return fmt.Sprintf("ids%v trak%v trex%v mvexFirst=%v trexDefaults%v moved%v %s %s", p.TrackIDs, p.TrakOrder, p.TrexOrder, p.MvexFirst, p.TrexDefaults, p.Moved, p.Shape, strings.Join(sl, ""))
 }
 
 var trackIDPool = []uint32{1, 2, 3, 4, 5, 7, 16, 100, 255, 256, 1000, 65535, 65536, 0x7fffffff, 0x80000000, 0xfffffffe}
@@ -122,9 +127,9 @@ func GenMergePlan(r *runner.Rand, nfrags []int) *MergePlan {
 		}
 	}
 	p.TrakOrder = r.Perm(n)
-	p.TrexOrder = r.Perm(n)
-	if r.Chance(1, 4) {
-		p.TrexOrder = append([]int(nil), p.TrakOrder...)
+	p.TrexOrder = r.Perm(n) // independent of the trak order (equal by chance: 1/2 for two tracks, 1/6 for three)
+	for i := 0; i < n; i++ {
+		p.TrexDefaults = append(p.TrexDefaults, r.Chance(2, 3))
 	}
 	p.Shape = r.PickStr("alternating", "multi-traf", "mixed")
 	next := make([]int, n)
@@ -252,6 +257,77 @@ func parseSingleTrack(b []byte) (*srcTrack, error) {
 	return t, nil
 }
 
+// moveDefaultsToTrex moves default_sample_duration / _size / _flags from the
+// tfhd boxes of a track to its trex box where every fragment has the field
+// with one and the same value (ISO/IEC 14496-12 §8.8.3, §8.8.7: the trex
+// values apply where tfhd does not override them).
+func moveDefaultsToTrex(s *srcTrack) ([]string, error) {
+	trex := descend(s.moov, "mvex", "trex")
+	if trex == nil || len(trex.Payload) != 24 {
+		return nil, fmt.Errorf("trex payload of %d bytes", len(trex.Payload))
+	}
+	var tfhds []*mut.E
+	for _, f := range s.frags {
+		tfhd := descend(f.moof, "traf", "tfhd")
+		if tfhd == nil || len(tfhd.Payload) < 8 {
+			return nil, fmt.Errorf("traf without tfhd")
+		}
+		tfhds = append(tfhds, tfhd)
+	}
+	// offset of an optional field within the tfhd payload
+	fieldOff := func(pl []byte, bit byte) int {
+		off := 8
+		for _, f := range []struct {
+			bit byte
+			n   int
+		}{{0x01, 8}, {0x02, 4}, {0x08, 4}, {0x10, 4}, {0x20, 4}} {
+			if f.bit == bit {
+				break
+			}
+			if pl[3]&f.bit != 0 {
+				off += f.n
+			}
+		}
+		return off
+	}
+	var moved []string
+	for _, fld := range []struct {
+		name    string
+		bit     byte
+		trexOff int
+	}{{"duration", 0x08, 12}, {"size", 0x10, 16}, {"flags", 0x20, 20}} {
+		all := len(tfhds) > 0
+		var val uint32
+		for i, h := range tfhds {
+			if h.Payload[3]&fld.bit == 0 {
+				all = false
+				break
+			}
+			off := fieldOff(h.Payload, fld.bit)
+			if off+4 > len(h.Payload) {
+				return nil, fmt.Errorf("tfhd too short")
+			}
+			v := binary.BigEndian.Uint32(h.Payload[off:])
+			if i > 0 && v != val {
+				all = false
+				break
+			}
+			val = v
+		}
+		if !all {
+			continue
+		}
+		binary.BigEndian.PutUint32(trex.Payload[fld.trexOff:], val)
+		for _, h := range tfhds {
+			off := fieldOff(h.Payload, fld.bit)
+			h.Payload = append(append([]byte(nil), h.Payload[:off]...), h.Payload[off+4:]...)
+			h.Payload[3] &^= fld.bit
+		}
+		moved = append(moved, fld.name)
+	}
+	return moved, nil
+}
+
 func put32(p []byte, off int, v uint32) error {
 	if off < 0 || off+4 > len(p) {
 		return fmt.Errorf("field at %d outside the %d-byte payload", off, len(p))
@@ -272,6 +348,16 @@ func Merge(files [][]byte, p *MergePlan) (init, media []byte, err error) {
 	for i, f := range files {
 		if src[i], err = parseSingleTrack(f); err != nil {
 			return nil, nil, fmt.Errorf("track %d: %w", i, err)
+		}
+	}
+	p.Moved = nil
+	for t, s := range src {
+		if t < len(p.TrexDefaults) && p.TrexDefaults[t] {
+			moved, err := moveDefaultsToTrex(s)
+			if err != nil {
+				return nil, nil, fmt.Errorf("track %d: %w", t, err)
+			}
+			p.Moved = append(p.Moved, moved...)
 		}
 	}
 	// ---- moov ----
